@@ -30,12 +30,16 @@ type c17File struct {
 	mergedInto     []int
 }
 
+var c17Prefix = "C17" // "C15" when the harness runs for C15's "loading ends in bounded time" clause
 var c17 []*c17File
 var c17N int
 
-type c17Info struct{ dir bool }
+type c17Info struct {
+	dir  bool
+	name string
+}
 
-func (i c17Info) Name() string       { return "x" }
+func (i c17Info) Name() string       { return i.name }
 func (i c17Info) Size() int64        { return 0 }
 func (i c17Info) Mode() os.FileMode  { return 0 }
 func (i c17Info) ModTime() time.Time { return time.Time{} }
@@ -78,6 +82,12 @@ func c17ReadFile(cl *Loader, filename string) (map[string]interface{}, error) {
 	}
 	f := c17[k]
 	f.reads++
+	if f.reads > 2 {
+		// read again and again: the closure does not terminate (reported here rather than as an
+		// exhausted unwinding bound; a second read is left to the exactly-once obligation below)
+		rt.Assert(false, c17Prefix+".import-closure-terminates (no file is read again and again)")
+		rt.Stop()
+	}
 	if !f.parses {
 		return nil, rt.ErrorNew("yaml: parse error")
 	}
@@ -122,6 +132,20 @@ func c17Merge(dst, src interface{}, opts ...interface{}) error {
 
 func c17IsURL(s string) bool { return false }
 
+// the same directory through the other listing calls of the standard library
+func c17ReadDir(dir string) ([]os.FileInfo, error) {
+	if dir != "/p/sub" {
+		return nil, rt.ErrorNew("no such directory")
+	}
+	var out []os.FileInfo
+	for k := 1; k <= 2 && k < c17N; k++ {
+		if c17[k].exists {
+			out = append(out, c17Info{name: c17Files[k][len("/p/sub/"):]})
+		}
+	}
+	return out, nil
+}
+
 // decoding the merged map into definitions is C15's subject; here the merged map is what is observed
 func c17Decode(cl *Loader, cm map[string]interface{}) (*configDefinition, error) {
 	return &configDefinition{}, nil
@@ -165,6 +189,7 @@ func VerifC17(n, part int) {
 	rt.Redirect("os.Stat", c17Stat)
 	rt.Redirect("(*github.com/taskctl/taskctl/internal/config.Loader).readFile", c17ReadFile)
 	rt.Redirect("path/filepath.Glob", c17Glob)
+	rt.Redirect("io/ioutil.ReadDir", c17ReadDir)
 	rt.Redirect("github.com/imdario/mergo.Merge", c17Merge)
 
 	rt.Redirect("(*github.com/taskctl/taskctl/internal/config.Loader).decode", c17Decode)
